@@ -116,9 +116,8 @@ CanWrite(m) == m \in {"rw", "excl"}
 Max2(a, b)  == IF a > b THEN a ELSE b
 SeqToSet(q) == {q[i] : i \in 1..Len(q)}
 TF(b)       == IF b THEN "true" ELSE "false"
-Cand(st, res) == [st |-> st, res |-> res, dev |-> "none"]
+Cand(st, res) == [st |-> st, res |-> res, dev |-> {}]
 DevCand(st, res, f) == [st |-> st, res |-> res, dev |-> f]
-IsErr(r)    == r \notin {"ok", "panic", "true", "false"}
 
 (***************************************************************************)
 (* DynamicContainer + LRU tracker + residency container                    *)
@@ -156,9 +155,9 @@ DRead(d, p, sliced) ==
   ELSE IF p \in d.dmg THEN
        \* the file has grown over the cut entry again: its tail is somebody else's bytes
        <<Cand(d, "err"), Cand(DMarkCut(d, p), "err"), Cand(DTouch(d, p), "exact"),
-         DevCand(DTouch(d, p), "other", "FX03e")>>
+         DevCand(DTouch(d, p), "other", {"FX03e"})>>
   ELSE <<Cand(DTouch(d, p), "exact")>> \o
-       (IF sliced THEN <<DevCand(DTouch(d, p), "whole", "FX03g")>> ELSE <<>>)
+       (IF sliced THEN <<DevCand(DTouch(d, p), "whole", {"FX03g"})>> ELSE <<>>)
 
 DRemove(d, p) ==
   IF ~CanWrite(d.mode) THEN <<Cand(d, "err:AccessDenied")>>
@@ -251,21 +250,23 @@ ResCands(r, mode, names, e) ==
       ideal == step(ro)
       devia == step(FALSE)
   IN (IF ideal.rok THEN <<Cand(ideal.st, e.res)>> ELSE <<>>) \o
-     (IF mode = "none" /\ devia.rok THEN <<DevCand(devia.st, e.res, "FX03a")>> ELSE <<>>)
+     (IF mode = "none" /\ devia.rok THEN <<DevCand(devia.st, e.res, {"FX03a"})>> ELSE <<>>)
 
 (***************************************************************************)
 (* StaticContainer on a directory written by a DynamicContainer            *)
 (*   c      Storage's state of the directory                               *)
+(*   dir    the directory exists                                           *)
 (*   init   open() has succeeded on the current object                     *)
 (*   snap   the index the container loaded                                 *)
 (*   unsure keys the directory gained or lost since                        *)
 (***************************************************************************)
-S0 == [c |-> St!C0, init |-> FALSE, snap |-> {}, unsure |-> {}]
+S0 == [c |-> St!C0, dir |-> FALSE, init |-> FALSE, snap |-> {}, unsure |-> {}]
 
 SCands(s, e) ==
-  CASE e.op = "dwrite"  -> <<Cand([s EXCEPT !.c = St!CWrite(@, "dyn", e.p, e["end"]), !.unsure = IF s.init THEN @ \cup {e.p} ELSE @], "ok")>>
-    [] e.op = "dremove" -> <<Cand([s EXCEPT !.c = St!CRemove(@, "dyn", e.p), !.unsure = IF s.init THEN @ \cup {e.p} ELSE @], "ok")>>
-    [] e.op = "sopen"   -> <<Cand([s EXCEPT !.init = TRUE, !.snap = s.c.disk, !.unsure = {}], "ok")>>
+  CASE e.op = "dwrite"  -> <<Cand([s EXCEPT !.c = St!CWrite(@, "dyn", e.p, e["end"]), !.dir = TRUE, !.unsure = IF s.init THEN @ \cup {e.p} ELSE @], "ok")>>
+    [] e.op = "dremove" -> <<Cand([s EXCEPT !.c = St!CRemove(@, "dyn", e.p), !.dir = TRUE, !.unsure = IF s.init THEN @ \cup {e.p} ELSE @], "ok")>>
+    [] e.op = "sopen"   -> \* a directory that does not exist: open may fail (it does) or see an empty container
+         (IF s.dir THEN <<>> ELSE <<Cand(s, "err")>>) \o <<Cand([s EXCEPT !.init = TRUE, !.snap = s.c.disk, !.unsure = {}], "ok")>>
     [] e.op = "snew"    -> <<Cand([s EXCEPT !.init = FALSE, !.snap = {}, !.unsure = {}], "ok")>>
     [] e.op = "sread"   ->
          IF ~s.init THEN <<Cand(s, "err")>>
@@ -279,7 +280,7 @@ SObsOK(s, names, o) ==
   /\ DOMAIN o.q = names
   /\ \A p \in names \ s.unsure : o.q[p] = (IF s.init /\ p \in s.snap THEN "t" ELSE "f")
   /\ \A p \in names : o.q[p] \in {"t", "f"}
-  /\ IF ~s.init THEN IsErr(o.lk) /\ o.cnt = 0
+  /\ IF ~s.init THEN o.lk \notin {"ok", "panic"} /\ o.cnt = 0
      ELSE /\ o.lk = "ok"
           /\ DOMAIN o.hd = names \cup {"zero"} /\ DOMAIN o.rs = names \cup {"zero"}
           /\ \A p \in names \ s.unsure : o.hd[p] = (p \in s.snap) /\ o.rs[p] = (p \in s.snap)
@@ -309,32 +310,33 @@ Exists(h, p)  == h.paths[p] # None
 NLink(h, i)   == Cardinality({p \in DOMAIN h.paths : h.paths[p] = i})
 Truth(h, k)   == IF <<"t", k>> \in DOMAIN h.paths THEN TF(Exists(h, <<"t", k>>)) ELSE "false"
 Place(k, e, f) == CASE e[f] = "trie" -> <<"t", k>> [] e[f] = "tk" -> <<"t", e.dk>> [] e[f] = "in" -> <<"in">> [] e[f] = "out" -> <<"out">>
-KeyOfPlace(pl) == IF pl[1] = "t" THEN {pl[2]} ELSE {}
 SetPath(h, pl, i) == [h EXCEPT !.paths[pl] = i]
 
+\* ---- the FD cache as the code keeps it: (key, answer) pairs, least recently used evicted at capacity ----
 Front(q, k, cap) == LET q2 == <<k>> \o SelectSeq(q, LAMBDA x : x # k) IN SubSeq(q2, 1, IF Len(q2) > cap THEN cap ELSE Len(q2))
-Drop(q, k) == SelectSeq(q, LAMBDA x : x # k)
 Cached(h, k) == \E i \in 1..Len(h.mru) : h.mru[i] = k
 CacheSet(h, k, v, y, cap) == [h EXCEPT !.mru = Front(@, k, cap), !.cv = R!RPut(@, k, v), !.why = R!RPut(@, k, y)]
-CacheDrop(h, k) == [h EXCEPT !.mru = Drop(@, k)]
+CacheDrop(h, k) == [h EXCEPT !.mru = SelectSeq(@, LAMBDA x : x # k)]
 CacheClear(h) == [h EXCEPT !.mru = <<>>]
-\* an operation through the container leaves the entries of the keys it touched truthful
-CacheTruth(h, ks) ==
-  [h EXCEPT !.cv = [k \in DOMAIN h.cv |-> IF k \in ks THEN Truth(h, k) ELSE h.cv[k]],
-            !.why = [k \in DOMAIN h.why |-> IF k \in ks THEN "obs" ELSE h.why[k]]]
+\* An operation THROUGH THE CONTAINER changed the files of some keys: an entry it left wrong is blamed on `f`
+\* (a finding id, or "bug" = nothing known explains it); entries the environment made stale keep "obs".
+Blame(h0, h1, f) ==
+  [h1 EXCEPT !.why = [x \in DOMAIN h1.why |->
+       IF Cached(h1, x) /\ Truth(h0, x) # Truth(h1, x) /\ h1.cv[x] # Truth(h1, x) THEN f ELSE h1.why[x]]]
 
-\* one query of key k answered v: is it allowed, by what, and the cache afterwards
+\* one query of key k answered v: is it allowed, which finding (if any) explains it, and the cache afterwards
 HQuery(h, k, v, cap) ==
-  IF ~h.sup THEN [ok |-> v = "false", dev |-> "none", st |-> h]
+  IF ~h.sup THEN [ok |-> v = "false", dev |-> {}, st |-> h]
   ELSE LET t   == Truth(h, k)
            hit == Cached(h, k) /\ h.cv[k] = v
-           y   == IF v = t THEN "obs" ELSE IF hit THEN h.why[k] ELSE "obs"
-       IN [ok |-> v = t \/ hit,
-           dev |-> IF v = t \/ ~hit THEN "none" ELSE IF h.why[k] = "obs" THEN "none" ELSE h.why[k],
-           st |-> CacheSet(h, k, v, y, cap)]
+       IN [ok  |-> v = t \/ hit,
+           dev |-> IF v = t \/ ~hit \/ h.why[k] = "obs" THEN {} ELSE {h.why[k]},
+           st  |-> CacheSet(h, k, v, IF v = t \/ ~hit THEN "obs" ELSE h.why[k], cap)]
+\* the answer the code gives
+HAnswer(h, k) == IF ~h.sup THEN "false" ELSE IF Cached(h, k) THEN h.cv[k] ELSE Truth(h, k)
 
+\* the refusal a mutation must get, or "" when it may proceed
 HRefuse(h, e) ==
-  \* the refusal every mutation must get, or "" when the operation may proceed
   IF e.op \in {"create", "cremove", "creserve"} /\ ~h.sup THEN "err:Config"
   ELSE IF ~CanWrite(h.mode) THEN "err:AccessDenied"
   ELSE ""
@@ -342,43 +344,25 @@ HRefuse(h, e) ==
 HCreate(h, e, cap) ==
   LET k == e.k   dst == Place(k, e, "dst")   src == <<"s", e.src>>
       ref == HRefuse(h, e)
-      \* what the code does once it is past its checks: dst replaced by a link to src, (k, true) cached
-      done(hh) == CacheSet(SetPath(hh, dst, hh.paths[src]), k, "true",
-                           IF dst = <<"t", k>> THEN "obs" ELSE "FX03c", cap)
-      \* truthful variant: the key of the path that changed is coherent, k itself is not claimed
-      good(hh) == LET h2 == SetPath(hh, dst, hh.paths[src])
-                  IN IF dst = <<"t", k>> THEN CacheSet(h2, k, "true", "obs", cap) ELSE CacheTruth(h2, KeyOfPlace(dst) \cup {k})
-      \* failed link after the old destination was deleted
-      lost(hh) == [SetPath(hh, dst, None) EXCEPT !.why = [x \in DOMAIN hh.why |-> IF x = k /\ hh.cv[k] = "true" THEN "FX03d" ELSE hh.why[x]]]
-  IN IF ref # "" THEN
-          <<Cand(h, ref)>> \o
-          (IF h.mode = "none" /\ h.sup /\ k # "z" /\ Exists(h, src) /\ (dst # <<"out">> \/ "FX03c" \in KnownDeviations)
-           THEN <<DevCand(done(h), "ok", "FX03a")>> ELSE <<>>) \o
-          (IF h.mode = "none" /\ h.sup /\ k # "z" /\ ~Exists(h, src) /\ (dst # <<"out">> \/ "FX03c" \in KnownDeviations)
-           THEN <<DevCand(IF Exists(h, dst) THEN lost(h) ELSE h, "err", "FX03a")>> ELSE <<>>)
+      \* past its checks the code replaces dst by a link to src and caches (k, true) - whatever dst is
+      done == Blame(h, CacheSet(SetPath(h, dst, h.paths[src]), k, "true", IF dst = <<"t", k>> THEN "obs" ELSE "FX03c", cap), "FX03c")
+      \* ... and when the link cannot be made, the old destination is already gone
+      lost == Blame(h, SetPath(h, dst, None), "FX03d")
+  IN IF ref # "" THEN <<Cand(h, ref)>>
      ELSE IF k = "z" THEN <<Cand(h, "err:InvalidFormat")>>
      ELSE IF dst = <<"out">> THEN
-          <<Cand(h, "err")>> \o
-          (IF Exists(h, src) THEN <<DevCand(done(h), "ok", "FX03c")>> ELSE <<DevCand(lost(h), "err", "FX03c")>>)
+          <<Cand(h, "err")>> \o (IF Exists(h, src) THEN <<DevCand(done, "ok", {"FX03c"})>> ELSE <<DevCand(lost, "err", {"FX03c", "FX03d"})>>)
      ELSE IF ~Exists(h, src) THEN
-          <<Cand(h, "err")>> \o (IF Exists(h, dst) THEN <<DevCand(lost(h), "err", "FX03d")>> ELSE <<>>)
-     ELSE IF dst = <<"t", k>> THEN <<Cand(done(h), "ok")>>
-     ELSE <<Cand(good(h), "ok"), DevCand(done(h), "ok", "FX03c")>>
+          <<Cand(h, "err")>> \o (IF Exists(h, dst) THEN <<DevCand(lost, "err", {"FX03d"})>> ELSE <<>>)
+     ELSE <<Cand(done, "ok")>>
 
-\* remove_file(k, path) and Container::remove(k) (= remove_file(k, trie path of k))
+\* remove_file(k, path) and Container::remove(k) (= remove_file(k, trie path of k)); only k's entry is dropped
 HRemoveAt(h, e, pl) ==
-  LET k == e.k
-      ref == HRefuse(h, e)
-      done(hh) == CacheDrop(SetPath(hh, pl, None), k)                       \* the code: only k's entry is dropped
-      good(hh) == CacheTruth(CacheDrop(SetPath(hh, pl, None), k), KeyOfPlace(pl))
-      harmless == KeyOfPlace(pl) \subseteq {k} \/ ~Exists(h, pl)
-  IN IF ref # "" THEN
-          <<Cand(h, ref)>> \o
-          (IF h.mode = "none" /\ (h.sup \/ e.op = "rmfile") /\ (pl # <<"out">> \/ "FX03c" \in KnownDeviations)
-           THEN <<DevCand(done(h), "ok", "FX03a")>> ELSE <<>>)
-     ELSE IF pl = <<"out">> THEN <<Cand(h, "err"), DevCand(done(h), "ok", "FX03c")>>
-     ELSE IF harmless THEN <<Cand(done(h), "ok")>>
-     ELSE <<Cand(good(h), "ok"), DevCand([done(h) EXCEPT !.why = [x \in DOMAIN h.why |-> IF x \in KeyOfPlace(pl) THEN "FX03c" ELSE h.why[x]]], "ok", "FX03c")>>
+  LET ref  == HRefuse(h, e)
+      done == Blame(h, CacheDrop(SetPath(h, pl, None), e.k), "FX03c")
+  IN IF ref # "" THEN <<Cand(h, ref)>>
+     ELSE IF pl = <<"out">> THEN <<Cand(h, "err"), DevCand(done, "ok", {"FX03c"})>>
+     ELSE <<Cand(done, "ok")>>
 
 \* delete_keys: two phases - candidates are chosen on the state at the call
 HDelete(h, e) ==
@@ -386,24 +370,20 @@ HDelete(h, e) ==
       gone == {k \in ks : <<"t", k>> \in DOMAIN h.paths /\ Exists(h, <<"t", k>>) /\ NLink(h, h.paths[<<"t", k>>]) <= 1}
       h2   == [h EXCEPT !.paths = [p \in DOMAIN h.paths |-> IF p[1] = "t" /\ p[2] \in gone THEN None ELSE h.paths[p]],
                         !.mru = SelectSeq(@, LAMBDA x : x \notin gone)]
-      res  == <<"n", Cardinality(gone)>>
-  IN IF ~CanWrite(h.mode) THEN
-          <<Cand(h, "err:AccessDenied")>> \o (IF h.mode = "none" THEN <<DevCand(h2, res, "FX03a")>> ELSE <<>>)
-     ELSE <<Cand(h2, res)>>
+  IN IF ~CanWrite(h.mode) THEN <<Cand(h, "err:AccessDenied")>>
+     ELSE <<Cand(Blame(h, h2, "bug"), "n" \o ToString(Cardinality(gone)))>>
 
+\* clean removes every file below the base's sub-directories; compact only files that are no valid trie leaves
 HClean(h, e) ==
   LET victims == {p \in DOMAIN h.paths : (p[1] = "t" \/ p = <<"in">>) /\ Exists(h, p)}
       h2 == IF e.op = "clean"
             THEN CacheClear([h EXCEPT !.paths = [p \in DOMAIN h.paths |-> IF p \in victims THEN None ELSE h.paths[p]]])
             ELSE CacheClear(h)
-      res == <<"n", IF e.op = "clean" THEN Cardinality(victims) ELSE 0>>
-  IN IF ~CanWrite(h.mode) THEN <<Cand(h, "err:AccessDenied"), DevCand(h2, res, "FX03b")>>
-     ELSE <<Cand(h2, res)>>
+  IN IF ~CanWrite(h.mode) THEN <<Cand(h, "err:AccessDenied")>>
+     ELSE <<Cand(h2, "n" \o ToString(IF e.op = "clean" THEN Cardinality(victims) ELSE 0))>>
 
 HTrait(h, e) ==
-  CASE e.op = "creserve" -> LET ref == HRefuse(h, e) IN
-                            <<Cand(h, IF ref # "" THEN ref ELSE "ok")>> \o
-                            (IF ref = "err:AccessDenied" /\ h.mode = "none" THEN <<DevCand(h, "ok", "FX03a")>> ELSE <<>>)
+  CASE e.op = "creserve" -> LET ref == HRefuse(h, e) IN <<Cand(h, IF ref # "" THEN ref ELSE "ok")>>
     [] e.op = "cread"    -> <<Cand(h, IF h.sup THEN "err" ELSE "err:Config")>>
     [] e.op = "cwrite"   -> <<Cand(h, "err")>>
 
@@ -415,13 +395,14 @@ HEnv(h, e) ==
 
 \* n never-seen keys are queried: all absent, all cached
 RECURSIVE HFloodN(_, _, _)
-HFloodN(h, n, cap) == IF n = 0 THEN h ELSE HFloodN([CacheSet(h, <<"f", h.fill>>, "false", "obs", cap) EXCEPT !.fill = @ + 1], n - 1, cap)
+HFloodN(h, n, cap) ==
+  IF n = 0 THEN h ELSE HFloodN([CacheSet(h, "f" \o ToString(h.fill), "false", "obs", cap) EXCEPT !.fill = @ + 1], n - 1, cap)
 HFlood(h, e, cap) == <<Cand(IF h.sup THEN HFloodN(h, e.n, cap) ELSE h, "false")>>
 
 HReopen(h, e) == <<Cand([h EXCEPT !.mode = e.mode, !.sup = (e.sup = "true"), !.mru = <<>>], "ok")>>
 HProbe(h, e)  == <<Cand([h EXCEPT !.sup = TRUE], "true")>>
 
-HCands(h, e, cap) ==
+HCands0(h, e, cap) ==
   CASE e.op = "create"  -> HCreate(h, e, cap)
     [] e.op = "rmfile"  -> HRemoveAt(h, e, Place(e.k, e, "path"))
     [] e.op = "cremove" -> HRemoveAt(h, e, <<"t", e.k>>)
@@ -434,6 +415,14 @@ HCands(h, e, cap) ==
     [] e.op = "probe"   -> HProbe(h, e)
     [] e.op = "query"   -> <<Cand(h, "query")>>      \* judged by HQuery on the logged answer
 
+\* Known deviations of the access-mode check: the candidates of a writable container, each carrying the finding
+AsMode(cands, mode, f) == [i \in 1..Len(cands) |-> [cands[i] EXCEPT !.dev = @ \cup {f}, !.st.mode = mode]]
+HMutations == {"create", "rmfile", "cremove", "delete", "creserve"}
+HCands(h, e, cap) ==
+  HCands0(h, e, cap) \o
+  (IF h.mode = "none" /\ e.op \in HMutations THEN AsMode(HCands0([h EXCEPT !.mode = "rw"], e, cap), h.mode, "FX03a") ELSE <<>>) \o
+  (IF ~CanWrite(h.mode) /\ e.op \in {"clean", "compact"} THEN AsMode(HCands0([h EXCEPT !.mode = "rw"], e, cap), h.mode, "FX03b") ELSE <<>>)
+
 \* what the file system shows at a place: <<content id, link count>>
 HShow(h, p) == IF Exists(h, p) THEN <<h.paths[p][1], NLink(h, h.paths[p])>> ELSE <<"none", 0>>
 
@@ -441,7 +430,11 @@ HShow(h, p) == IF Exists(h, p) THEN <<h.paths[p][1], NLink(h, h.paths[p])>> ELSE
 HConfined   == w.paths[<<"out">>] = <<"v">>
 HBounded(cap) == Len(w.mru) <= cap
 \* H2 without an environment: everything the cache holds is true
-HCoherent   == \A i \in 1..Len(w.mru) : w.mru[i][1] # "f" => w.cv[w.mru[i]] = Truth(w, w.mru[i])
+\* H2 without an environment: everything the cache holds is true - refuted by TLC on the cache as the code keeps it
+\* (create_link / remove_file with a path that is not the key's own: FX03c; failed create_link: FX03d) ...
+HCoherentStrict == \A i \in 1..Len(w.mru) : w.cv[w.mru[i]] = Truth(w, w.mru[i])
+\* ... and true of every entry that is not blamed on one of them
+HCoherent   == \A i \in 1..Len(w.mru) : w.why[w.mru[i]] = "obs" => w.cv[w.mru[i]] = Truth(w, w.mru[i])
 HSourcesSafe == w.paths[<<"s", "s1">>] \in {<<"s1">>, None} /\ w.paths[<<"s", "s2">>] \in {<<"s2">>, None}
 HFrozen     == (~CanWrite(w.mode) /\ w'.mode = w.mode) =>
                  \A p \in DOMAIN w.paths : p[1] \in {"t", "in", "out"} => (w'.paths[p] = w.paths[p] \/ w'.paths[p][1] = "x" \/ w.paths[p][1] = "x")
